@@ -50,11 +50,12 @@ NODAL = ("trapezoidal", "simpson", "cc", "leja", "gauss")
 HIER = ("lagrange", "bspline")
 
 # tolerances (relative to the box volume; all test functions are bounded by 1 on the box).
-# observed on the unchanged tree: nodal <= 3e-15, Leja <= 2e-11 (points come from scipy fmin, weights from an
-# inverted Vandermonde matrix), hierarchical <= 2e-13.
-TOL_EXACT = {"trapezoidal": 1e-12, "simpson": 1e-12, "cc": 1e-12, "gauss": 1e-12, "leja": 1e-8,
+# observed maxima on the unchanged tree (quick + thorough): exactness nodal 2.4e-13 (boxes of width 0.0125 at x=10:
+# the conditioning of t=(x-mid)/half), Leja 5e-14, hierarchical 1.5e-13; sum of weights 6e-16 (hier. 3e-14);
+# unit function vs weight 0.  A real defect (wrong weight, wrong knot, wrong area) shows at >= 1e-4.
+TOL_EXACT = {"trapezoidal": 5e-11, "simpson": 5e-11, "cc": 5e-11, "gauss": 5e-11, "leja": 1e-9,
              "lagrange": 1e-10, "bspline": 1e-10}
-TOL_WSUM = {"trapezoidal": 1e-13, "simpson": 1e-13, "cc": 1e-13, "gauss": 1e-13, "leja": 1e-9}
+TOL_WSUM = {"trapezoidal": 1e-12, "simpson": 1e-12, "cc": 1e-12, "gauss": 1e-12, "leja": 1e-10}
 TOL_UNIT = 1e-13        # integrate(unit function j) == weight j   (nodal families, one product, no summation)
 TOL_INSIDE = 1e-12      # relative to (|start|+|end|+1)
 TOL_MODEL = 1e-13       # trapezoidal points/weights against the composite trapezoidal model
@@ -249,6 +250,26 @@ def check_area(out, sub, case, grid, area, rng, info, tag, limits):
     fam, p, d = case["family"], case.get("p", 0), case["d"]
     boundary = True if fam == "gauss" else case["boundary"]
     lv = list(area.level)
+    # integrate() must set the area up itself (Integration.evaluate_area calls it without setCurrentArea): call it
+    # while the grid still sits on the previous area (or on none).  Integrand 1 + sum_d c_d t_d, degree 1 <= nominal
+    # degree of every family as soon as n >= 2, which holds at every level when no point is dropped.
+    if boundary or not area.touches:
+        if not (fam == "bspline" and not boundary):      # (interior boxes of boundary-off B-splines: F-C08-b)
+            from sparseSpACE.Function import Function
+            c = rng.uniform(-1.0, 1.0, size=d)
+
+            class Linear(Function):
+                def output_length(self):
+                    return 1
+
+                def eval(self, coordinates):
+                    return 1.0 + float(np.dot(c, (np.asarray(coordinates, dtype=float) - area.mid) / area.half))
+
+            r0 = np.asarray(grid.integrate(Linear(), lv, area.start.copy(), area.end.copy()), dtype=float).reshape(-1)
+            if len(r0) != 1 or abs(r0[0] - area.volume) > TOL_EXACT[fam] * area.volume * (1 + d):
+                out.bad("%s/integrate/%s-without-previous-setCurrentArea" % (sub, fam),
+                        "%s: integrate(1 + linear) called right after the previous area = %s, volume %.17g; start=%s end=%s level=%s"
+                        % (tag, r0.tolist(), area.volume, area.start.tolist(), area.end.tolist(), lv))
     grid.setCurrentArea(area.start.copy(), area.end.copy(), lv)
     points, weights = grid.get_points_and_weights()
     announced = [int(x) for x in grid.levelToNumPoints(lv)]
@@ -287,11 +308,11 @@ def check_area(out, sub, case, grid, area, rng, info, tag, limits):
     out.cls("mode=" + mode)
 
     # --- B-spline, boundary off: is the basis complete?  (cause of finding F-C08-b, see known_findings.d) ---------
-    if fam == "bspline" and not boundary and npts:
+    if fam == "bspline" and not boundary:
         missing = []
         for k in range(d):
             for idx, on_global in ((0, area.touch_a[k]), (announced[k] - 1, area.touch_b[k])):
-                if not on_global and grid.get_basis(k, idx) is None:
+                if announced[k] >= 1 and not on_global and grid.get_basis(k, idx) is None:
                     missing.append((k, idx))
         if missing:
             out.bad("%s/basis/bspline-boundary-off-no-basis-at-interior-subbox-end" % sub,
@@ -705,10 +726,10 @@ def selftest():
 
 
 SUBS = [
-    Sub("nodal", nodal_strategy, run_nodal, dict(quick=2400, thorough=30000),
+    Sub("nodal", nodal_strategy, run_nodal, dict(quick=3600, thorough=40000),
         budget_s=dict(quick=40, thorough=420), fixed_cases=nodal_fixed),
-    Sub("hier", hier_strategy, run_hier, dict(quick=1200, thorough=12000),
+    Sub("hier", hier_strategy, run_hier, dict(quick=2000, thorough=20000),
         budget_s=dict(quick=45, thorough=500), fixed_cases=hier_fixed),
-    Sub("trap_boundary", trap_boundary_strategy, run_trap_boundary, dict(quick=1600, thorough=20000),
+    Sub("trap_boundary", trap_boundary_strategy, run_trap_boundary, dict(quick=2400, thorough=24000),
         budget_s=dict(quick=25, thorough=240), fixed_cases=trap_fixed),
 ]
